@@ -17,8 +17,10 @@ pub mod c06n;
 pub mod c07s;
 pub mod c09n;
 pub mod c10c;
+pub mod c01f;
 pub mod c11;
 pub mod c12;
+pub mod c12r;
 pub mod c15;
 pub mod c16n;
 pub mod c17;
@@ -31,11 +33,23 @@ pub struct Certs {
 }
 impl Certs {
     pub fn generate(dir: &Path) -> anyhow::Result<Self> {
+        Self::generate_opts(dir, false, 1)
+    }
+    /// `times` > 1: the generator is run again and again over the same directory (the files
+    /// of the earlier set are overwritten, as when certificates are renewed in place)
+    pub fn generate_opts(dir: &Path, no_expiry: bool, times: usize) -> anyhow::Result<Self> {
+        let mut last = None;
+        for _ in 0..times.max(1) {
+            last = Some(Self::generate_once(dir, no_expiry)?);
+        }
+        Ok(last.unwrap())
+    }
+    fn generate_once(dir: &Path, no_expiry: bool) -> anyhow::Result<Self> {
         use selium_tools::commands::gen_certs;
         let client = dir.join("client");
         let server = dir.join("server");
         // the generator prints progress to stdout; that is fine
-        let args = selium_tools::cli::GenCertsArgs { server_out_path: server, client_out_path: client, no_expiry: false };
+        let args = selium_tools::cli::GenCertsArgs { server_out_path: server, client_out_path: client, no_expiry };
         use selium_tools::traits::CommandRunner;
         gen_certs::GenCertsRunner::from(args).run()?;
         Ok(Certs { dir: dir.to_path_buf() })
